@@ -485,7 +485,86 @@ def setup_one(stream, every, handler_kind="blocking"):
     return None
 
 
+def two_engines_case(fed):
+    """two independent engines alive in one process (own tasks, phenomena, actions, handlers), only one is fed: the
+    other must stay idle, and the fed one behaves as if alone.  -> failure text | None"""
+    from bobocep.cep.action.action import BoboAction
+    from bobocep.cep.action.handler import BoboActionHandlerBlocking
+    from bobocep.cep.engine.receiver.pubsub import BoboReceiverSubscriber
+    from bobocep.cep.engine.producer.pubsub import BoboProducerSubscriber
+    from bobocep.cep.engine.forwarder.pubsub import BoboForwarderSubscriber
+    from bobocep.cep.engine.decider.pubsub import BoboDeciderSubscriber
+    from bobocep.cep.event import BoboEventSimple
+    from bobocep.cep.phenom.pattern.builder import BoboPatternBuilder
+    from bobocep.cep.phenom.phenom import BoboPhenomenon
+    from bobocep.setup.simple import BoboSetupSimple
+
+    def build(tag):
+        class Spy(BoboReceiverSubscriber, BoboProducerSubscriber, BoboForwarderSubscriber, BoboDeciderSubscriber):
+            def __init__(self):
+                self.stream, self.complex, self.action, self.decided = [], [], [], []
+
+            def on_receiver_update(self, event):
+                self.stream.append(event)
+
+            def on_producer_update(self, event, local):
+                self.complex.append(event)
+
+            def on_forwarder_update(self, event):
+                self.action.append(event)
+
+            def on_decider_update(self, completed, halted, updated, local):
+                self.decided.append((len(completed), len(halted), len(updated)))
+
+        class Act(BoboAction):
+            def __init__(self):
+                super().__init__(name="act_" + tag)
+                self.calls = []
+
+            def execute(self, event):
+                self.calls.append(event)
+                return True, tag
+        act = Act()
+        ph = BoboPhenomenon(name="ph_" + tag, patterns=[
+            BoboPatternBuilder("ab").followed_by(lambda e, h: isinstance(e, BoboEventSimple) and e.data == 1)
+                                    .followed_by(lambda e, h: isinstance(e, BoboEventSimple) and e.data == 2).generate()],
+            action=act, datagen=lambda p, h: "alarm@" + tag)
+        handler = BoboActionHandlerBlocking()
+        engine = BoboSetupSimple(phenomena=[ph], handler=handler, urn=tag).generate()
+        spy = Spy()
+        engine.receiver.subscribe(spy)
+        engine.decider.subscribe(spy)
+        engine.producer.subscribe(spy)
+        engine.forwarder.subscribe(spy)
+        return engine, spy, act
+    engines = {t: build(t) for t in ("north", "south")}
+    other = "south" if fed == "north" else "north"
+    for d in (0, 1, 5, 2, 7, 1, 2):
+        engines[fed][0].receiver.add_data(d)
+        for t in ("north", "south"):
+            engines[t][0].update()
+    for _ in range(12):
+        for t in ("north", "south"):
+            engines[t][0].update()
+    e, spy, act = engines[other]
+    if spy.stream or spy.complex or spy.action or spy.decided or act.calls:
+        return ("engine %r was given no input, yet it saw %d events, %d complex events, %d action events, %d decider "
+                "notifications and executed its action %d times" % (other, len(spy.stream), len(spy.complex), len(spy.action),
+                                                                    len(spy.decided), len(act.calls)))
+    e, spy, act = engines[fed]
+    if (len(spy.complex), len(act.calls), len(spy.action)) != (2, 2, 2) or any(c.data != "alarm@" + fed for c in spy.complex):
+        return ("engine %r completed 2 runs next to an idle engine: complex events %d, executions %d, action events %d, data %s"
+                % (fed, len(spy.complex), len(act.calls), len(spy.action), [c.data for c in spy.complex]))
+    return None
+
+
 def setup_half(ctx, res):
+    for fed in ("north", "south"):
+        bad = two_engines_case(fed)
+        res.note_case(("two-engines", fed), True)
+        if bad:
+            res.failures.append(dict(signature="engines-in-one-process-not-independent", what=bad, detail=None,
+                                     case=dict(two_engines=True, fed=fed)))
     n = 0
     for stream in SETUP_STREAMS:
         for every in (1, 2, 3):
@@ -535,6 +614,10 @@ def replay(obj):
     if not case:
         print(obj)
         return 0
+    if case.get("two_engines"):
+        bad = two_engines_case(case["fed"])
+        print("oracle        :", bad or "the engine that was not fed stayed idle; the fed one: one complex event, execution, action event per run")
+        return 1 if bad else 0
     if case.get("setup"):
         f = setup_one(tuple(case["stream"]), case["every"], case["handler"])
         print("oracle        :", f["what"] if f else "every datum seen once and in order; complex and action events re-entered; one per completed run")
